@@ -371,6 +371,37 @@ class Unit:
         add('}\n')
         return ''.join(out)
 
+    def param_names(self, f: Fn):
+        _, _, params, _, _ = self.src.fn_sig_parts(f, {})
+        names = []
+        for p in params:
+            p = p.strip()
+            if re.fullmatch(r"&?\s*('[a-z_]+\s+)?(mut\s+)?self", p):
+                names.append('self')
+            else:
+                m = re.match(r'(?:mut\s+)?([A-Za-z_][A-Za-z0-9_]*)\s*:', p)
+                names.append(m.group(1) if m else '_')
+        return names
+
+    def bind_params(self, c: Contract, f: Fn):
+        """replace positional placeholders $0, $1 .. by the real parameter names of the signature"""
+        import copy
+        names = self.param_names(f)
+
+        def sub(t):
+            def r(m):
+                k = int(m.group(1))
+                if k >= len(names):
+                    raise ExtractError('contract of %s refers to parameter $%d but the signature has %d' % (f.name, k, len(names)))
+                return names[k]
+            return re.sub(r'\$([0-9])', r, t)
+        c2 = copy.copy(c)
+        c2.requires = [sub(x) for x in c.requires]
+        c2.ensures = [sub(x) for x in c.ensures]
+        c2.pre = sub(c.pre)
+        c2.tail = sub(c.tail)
+        return c2
+
     def obligation_name(self, im, f):
         if im is None:
             return '%s::%s' % (f.module, f.name)
@@ -383,6 +414,7 @@ class Unit:
             if c is None:
                 raise ExtractError('un-contracted function: %s' % self.obligation_name(im, f))
         quals = [q for q in f.quals if q in ('pub',)]
+        c = self.bind_params(c, f)
         sig = self.fn_decl(f, c, ret_name=c.ret)
         body = src.body_text(f, self.subst)
         body = self.rewrite_body(body, c, f)
